@@ -250,6 +250,8 @@ def check_counts(P, ctx, fr):
     else:
         ctx.check(rbad is None, rule, 'Table_Rehash', site(fn), 'rehash resets the count, then re-inserts every occupied slot of the old store, so the new store binds what the old one did and the count '
                   'equals the number of entries; the old store is freed (%d tables evaluated, growing and shrinking)' % rn, [rbad] if rbad else None)
+    # set and rem that cross a resize threshold: the rehash on the way and the count update must not interfere
+    check_resizing_ops(P, ctx, rule)
     # Table_Clear sets count, slots and data together
     fn = P.fn('Table_Clear')
     g = P.cfg(fn)
@@ -489,6 +491,45 @@ def check_finite_map(P, ctx):
     ctx.floor(rule, 4)
 
 
+def check_resizing_ops(P, ctx, rule):
+    from . import tablemodel
+    from .absmodel import Unsupported
+    fn = P.fn(P.slot('Table', 'Get', 'rem'))
+    ctx.fn(fn)
+    try:
+        zbad, zunsup, zn = tablemodel.eval_table_resizing_ops(P)
+    except Unsupported as x:
+        zbad, zunsup, zn = None, str(x), 0
+    ctx.stats['paths'] += zn
+    if zunsup and not zbad:
+        ctx.undecided(rule, 'resize-on-the-way', site(fn), 'leaves the evaluated fragment: ' + zunsup)
+    else:
+        ctx.check(zbad is None, rule, 'resize-on-the-way', site(fn), 'a set that grows and a rem that shrinks the table on the way leave exactly the abstract map bound, the count equal '
+                  'to it and every key findable (%d cases evaluated)' % zn, [zbad] if zbad else None)
+
+
+def check_size_round(P, ctx, helper='Table_Size_Round', rule='C02.layout'):
+    """the slot size of a key / value is its type's size rounded *up* to whole words: a slot smaller than the object lets it run into the
+    next header (a type whose size is no multiple of 8 then corrupts its neighbours); evaluated for sizes 0..40"""
+    from . import cint
+    fn = P.fn(helper, required=False)
+    if fn is None:
+        ctx.proved(rule, helper, 'src/', 'no separate rounding helper')
+        return
+    ctx.fn(fn)
+    bad, unsup = None, None
+    for s_ in range(0, 41):
+        r = cint.CInt(P, fn, atoms={}, strict=True).run([s_])
+        if r[0] != 'ret' or not isinstance(r[1], int):
+            unsup = unsup or 'size %d: %s' % (s_, r[1])
+        elif r[1] < s_ or r[1] % 8 or r[1] >= s_ + 8:
+            bad = bad or 'an object of %d bytes gets a slot of %d bytes' % (s_, r[1])
+    if unsup and not bad:
+        ctx.undecided(rule, helper, site(fn), 'leaves the evaluated fragment: ' + unsup)
+    else:
+        ctx.check(bad is None, rule, helper, site(fn), 'the slot size is the object size rounded up to the next multiple of 8 (sizes 0..40 evaluated)', [bad] if bad else None)
+
+
 def run(ctx, load):
     P = load(UNITS, 'default')
     ctx.stats['units'] = set(UNITS)
@@ -501,6 +542,7 @@ def run(ctx, load):
     check_counts(P, ctx, fr)
     check_backshift(P, ctx)
     check_layout(P, ctx)
+    check_size_round(P, ctx)
     check_scratch(P, ctx)
     from .rules_c03 import check_assign_rebuilds
     check_assign_rebuilds(P, ctx, 'Table', 'Table_Clear', 'Table_Set_Move', 'C02.assign-rebuilds')
